@@ -90,7 +90,9 @@ class Printer:
 
     def __init__(self, name_of=None, resolve=None):
         self.name_of = name_of or (lambda t: t)
-        self.resolve = resolve
+        # resolve=None: an input node the macro never inspected prints as one atom ('ATOM', key): equal on both sides
+        self._resolve = resolve
+        self.resolve = resolve or (lambda s: s)
 
     def nm(self, x):
         if isinstance(x, str):
@@ -150,9 +152,13 @@ class Printer:
         if isinstance(v, Ptr):
             v = v.get()
         if isinstance(v, Sym):
-            if self.resolve is None:
-                raise Unsupported('printing an unresolved lazy node without a resolver')
-            v = self.resolve(v)
+            if self._resolve is None:
+                out.append(('ATOM', v.key, 'input'))
+                return
+            v = self._resolve(v)
+            if isinstance(v, Sym):
+                out.append(('ATOM', v.key, 'input'))
+                return
             return self.node(v, out)
         if isinstance(v, Ident):
             return self.ident(out, v.name, v.raw, v.origin)
@@ -186,16 +192,27 @@ class Printer:
         return meth(v, out)
 
     def punctuated(self, p, out, sep=None):
+        if self.lazy(p, out):
+            return
         items = p.items
         for i, x in enumerate(items):
             self.node(x, out)
             if i < len(items) - 1 or p.trailing:
                 self.tok(out, sep or p.sep)
 
+    def lazy(self, x, out):
+        """atom mode: an uninspected input node prints as one atom"""
+        if isinstance(x, Sym):
+            out.append(('ATOM', x.key, 'input'))
+            return True
+        return False
+
     def attrs(self, v, out):
         a = v.f('attrs')
         if isinstance(a, Sym):
             a = self.resolve(a)
+        if self.lazy(a, out):
+            return
         for x in a.items:
             self.node(x, out)
 
@@ -225,7 +242,7 @@ class Printer:
     def p_Attribute(self, v, out):
         self.punct(out, '#')
         st = self.g(v, 'style')
-        if st.variant == 'Inner':
+        if not isinstance(st, Sym) and st.variant == 'Inner':
             self.punct(out, '!')
         inner = []
         self.node(self.g(v, 'meta'), inner)
@@ -295,12 +312,10 @@ class Printer:
         self.node(gen, out)
         inner = []
         self.punctuated(self.g(v, 'inputs'), inner, 'Comma')
-        var = self.g(v, 'variadic')
-        if var.variant == 'Some':
-            raise Unsupported('variadic')
         self.group(out, '(', inner)
         self.node(self.g(v, 'output'), out)
-        self.node(self.g(gen, 'where_clause'), out)
+        if not isinstance(gen, Sym):
+            self.node(self.g(gen, 'where_clause'), out)
 
     def p_Abi(self, v, out):
         self.ident(out, 'extern')
@@ -311,10 +326,20 @@ class Printer:
 
     def p_Generics(self, v, out):
         params = self.g(v, 'params')
+        if self.lazy(params, out):
+            return
         if not params.items:
             return
         self.punct(out, '<')
         items = [self.resolve(x) if isinstance(x, Sym) else x for x in params.items]
+        if any(isinstance(x, Sym) for x in items):
+            # atom mode with an uninspected parameter: keep declaration order (lifetimes-first reordering needs the kinds)
+            for i, x in enumerate(items):
+                self.node(x, out)
+                if i < len(items) - 1:
+                    self.punct(out, ',')
+            self.punct(out, '>')
+            return
         trailing_or_empty = True
         n = len(items)
         # lifetimes first
@@ -344,11 +369,11 @@ class Printer:
         self.attrs(v, out)
         self.node(self.g(v, 'ident'), out)
         b = self.g(v, 'bounds')
-        if b.items:
+        if not self.lazy(b, out) and b.items:
             self.punct(out, ':')
             self.punctuated(b, out, 'Plus')
         d = self.g(v, 'default')
-        if d.variant == 'Some':
+        if not self.lazy(d, out) and d.variant == 'Some':
             self.punct(out, '=')
             self.node(d.fields[0], out)
 
@@ -373,6 +398,8 @@ class Printer:
 
     def p_WhereClause(self, v, out):
         p = self.g(v, 'predicates')
+        if self.lazy(p, out):
+            return
         if p.items:
             self.ident(out, 'where')
             self.punctuated(p, out, 'Comma')
@@ -413,7 +440,7 @@ class Printer:
     def p_Receiver(self, v, out):
         self.attrs(v, out)
         r = self.g(v, 'reference')
-        if r.variant == 'Some':
+        if not self.lazy(r, out) and r.variant == 'Some':
             tup = r.fields[0]
             self.punct(out, '&')
             self.node(tup.fields[1], out)
@@ -439,7 +466,7 @@ class Printer:
         self.opt(v, 'mutability', out)
         self.node(self.g(v, 'ident'), out)
         sp = self.g(v, 'subpat')
-        if sp.variant == 'Some':
+        if not self.lazy(sp, out) and sp.variant == 'Some':
             self.punct(out, '@')
             self.node(sp.fields[0].fields[1], out)
 
@@ -452,10 +479,10 @@ class Printer:
         inner = []
         el = self.g(v, 'elems')
         self.punctuated(el, inner, 'Comma')
-        if len(el.items) == 1 and not el.trailing:
+        if not isinstance(el, Sym) and len(el.items) == 1 and not el.trailing:
             x = el.items[0]
             x = self.resolve(x) if isinstance(x, Sym) else x
-            if x.variant != 'Rest':
+            if isinstance(x, Sym) or x.variant != 'Rest':
                 self.punct(inner, ',')
         self.group(out, '(', inner)
 
@@ -564,6 +591,8 @@ class Printer:
         self.attrs(v, out)
         self.node(self.g(v, 'sig'), out)
         d = self.g(v, 'default')
+        if self.lazy(d, out):
+            return
         if d.variant == 'Some':
             self.node(d.fields[0], out)
         else:
